@@ -171,7 +171,7 @@ static void runCase(const std::string& mode, const std::string& choiceTxt, const
         std::string kind = choiceTxt.substr(0, choiceTxt.find(':')); if (kind == "hdr") kind = choiceTxt.substr(0, choiceTxt.find('='));
         std::vector<std::string> diffs; compareWithRef(s1, F, diffs);
         for (auto& d : diffs) out.viol.push_back({"C12|decode/" + d + "/" + kind, "loaded value differs from the bytes' reading in " + d});
-        std::string p2 = dir + "/g2.c3d"; oc = guarded([&] { G1->write(p2); }, &what);
+        std::string p2 = dir + "/g2.c3d"; freshDestination(p2); oc = guarded([&] { G1->write(p2); }, &what);
         if (oc != OK) { out.viol.push_back({std::string("C12|save_throws/") + outcomeName(oc) + "/" + kind, what}); out.outcome = "save-throws"; return; }
         std::string b2; readAll(p2, b2); ref::File F2; std::string e2 = ref::decode(b2, F2, false);
         if (!e2.empty()) { out.viol.push_back({"C12|resaved_undecodable/" + kind, e2}); out.outcome = "resave-undecodable"; return; }
@@ -188,11 +188,13 @@ static void runCase(const std::string& mode, const std::string& choiceTxt, const
     if (mode == "c14") {   // saving a LOADED object is pure and repeatable; the file digest goes to the transcript for the heap-perturbation join
         WSnap before; before.o = s1; std::string t0; dumpObject(t0, s1);
         std::string pa = dir + "/c14a.c3d", pb = dir + "/c14b.c3d";
+        freshDestination(pa); longerDestination(pb, bytes.size() + 4096, (char)0xA5);   // first save to a fresh path, second one over an existing longer file
         oc = guarded([&] { G1->write(pa); }, &what); if (oc != OK) { out.outcome = "save-throws"; return; }
         std::string t1; dumpObject(t1, snapObject(*G1)); if (t1 != t0) out.viol.push_back({"C14|save_changed_object/loaded", "object differs after write()"});
         oc = guarded([&] { G1->write(pb); }, &what); if (oc != OK) { out.viol.push_back({"C14|second_save_throws/loaded", what}); return; }
         std::string ba, bb; readAll(pa, ba); readAll(pb, bb);
-        if (ba != bb) { size_t off = 0; while (off < ba.size() && off < bb.size() && ba[off] == bb[off]) ++off; out.viol.push_back({std::string("C14|two_saves_differ/loaded/") + (off < 512 ? "header" : "body"), "first differing offset " + S(off)}); }
+        if (bb.size() > ba.size() && bb.compare(0, ba.size(), ba) == 0) out.viol.push_back({"C14|destination_leftover_kept/loaded", "saved over a longer file, the result keeps " + S(bb.size() - ba.size()) + " bytes of it"});
+        else if (ba != bb) { size_t off = 0; while (off < ba.size() && off < bb.size() && ba[off] == bb[off]) ++off; out.viol.push_back({std::string("C14|two_saves_differ/loaded/") + (off < 512 ? "header" : "body"), "first differing offset " + S(off)}); }
         out.transcript += " saved=" + hashStr(ba).hex(); out.outcome = out.viol.empty() ? "pure" : "differs"; return;
     }
     // c04: load -> save -> load (-> save -> load)
